@@ -108,6 +108,26 @@ def bv_wide(rng, env, widths, per_width):
     return out
 
 
+EXTREME_STRINGS = ["7", "007", "18446744073709551617", "+1", "-1", " 1", "1 ", "1_0", "1.0", "0x1", "\u0663", "1\u0663",
+                   "\u0967\u0968", "\uff11", "\U0001d7d1", "\u00e9", "a\u00e9b", "\U0001f600", "x\U0001f600y", "\u00b2", "\u2460", ""]
+
+
+def extreme_strings(env):
+    """string operators on extreme but legal constants: only ASCII digits are digits for str.to_int; other scripts'
+    decimal digits, signs, blanks, underscores, leading zeros, numbers beyond 2**64, astral-plane characters"""
+    m = env.formula_manager
+    out = []
+    for st in EXTREME_STRINGS:
+        c = m.String(st)
+        out += [m.StrToInt(c), m.LT(m.StrToInt(c), m.Int(0)), m.StrLength(c), m.StrCharAt(c, m.Int(1)),
+                m.StrCharAt(c, m.Int(-2)), m.StrConcat(c, m.String("a"), c), m.StrIndexOf(m.StrConcat(c, m.String("a"), c), m.String("a"), m.Int(0)),
+                m.StrSubstr(c, m.Int(1), m.Int(2)), m.StrReplace(c, m.String("1"), m.String("z")),
+                m.StrPrefixOf(m.String("1"), c), m.StrSuffixOf(c, m.String("x" + st)), m.StrContains(c, m.String("\u0663"))]
+    for n in (0, 7, -1, -12, 10 ** 20 + 3, 2 ** 64, -(2 ** 64)):
+        out += [m.IntToStr(m.Int(n)), m.StrToInt(m.IntToStr(m.Int(n))), m.StrLength(m.IntToStr(m.Int(n)))]
+    return out
+
+
 def run_ground(ctx, env, formulas, tag):
     lines, meta = [], []
     model = EagerModel({}, env)
@@ -325,6 +345,7 @@ def run(ctx):
     run_ground(ctx, genv, bv_exhaustive(ctx, genv, widths), "bv_exhaustive")
     ctx.extra["bv_exhaustive_widths"] = list(widths)
     run_ground(ctx, Environment(), array_equalities(genv, (1, 2, 3, 4)), "array_equalities")
+    run_ground(ctx, Environment(), extreme_strings(genv), "extreme_strings")
     wide = (53, 54, 64, 65, 128, 300) if ctx.tier == "quick" else (31, 32, 33, 53, 54, 63, 64, 65, 127, 128, 129, 256, 300, 512)
     run_ground(ctx, Environment(), bv_wide(ctx.rng, genv, wide, 12 if ctx.tier == "quick" else 60), "bv_wide")
     env = Environment()
